@@ -278,9 +278,12 @@ class Evaluator:
         return s.leaf(t)
 
 
-def equivalent(t1, t2, trials=30, seed=1, modes=('int', 'frac', 'neg'), overrides=None):
+def equivalent(t1, t2, trials=30, seed=1, modes=('int', 'frac', 'neg'), overrides=None, conds=None):
     rnd = random.Random(seed)
     ok = 0
+    dropped = False
+    if conds:
+        trials = trials * 8          # only the trials that satisfy the path conditions count
     for i in range(trials):
         mode = modes[i % len(modes)]
         st = rnd.getstate()
@@ -290,6 +293,19 @@ def equivalent(t1, t2, trials=30, seed=1, modes=('int', 'frac', 'neg'), override
             e2 = Evaluator(random.Random(0), mode, overrides)
             e2.leaves = e1.leaves            # same assignment; new leaves of t2 get fresh values
             v2 = e2.ev(t2)
+            if conds:
+                sat = True
+                for ct, tr in conds:
+                    try:
+                        cv = bool(e2.ev(ct))
+                    except NotEvaluable:
+                        dropped = True           # a condition outside the evaluator (a call result tested) is left out:
+                        continue                 # agreement under fewer conditions is still agreement; a difference is then undecided
+                    if cv != tr:
+                        sat = False
+                        break
+                if not sat:
+                    continue
         except NotEvaluable:
             continue
         if isinstance(v1, float) or isinstance(v2, float):
@@ -297,7 +313,7 @@ def equivalent(t1, t2, trials=30, seed=1, modes=('int', 'frac', 'neg'), override
         else:
             same = (v1 == v2 and type(v1) == type(v2)) or (isinstance(v1, (int, bool)) and isinstance(v2, (int, bool)) and v1 == v2)
         if not same:
-            return False
+            return None if dropped else False
         ok += 1
     return True if ok >= MIN_OK else None
 
